@@ -88,6 +88,7 @@ macro "bo_auto" h:ident : tactic => `(tactic|
         (try intro t)
         (repeat' split)
         all_goals (try bo_simp)
+        all_goals (try omega)
         done)))
 
 /-- no thread newly enters the poll stage 10 of `block_on` -/
@@ -130,7 +131,7 @@ theorem blockOn_events {w w' : World} {c : TCtl} {f mode : Nat}
     (h : w.blockOnStage c f mode = .ok w') :
     (c.stage ≠ 40 → c.stage ≠ 41 → c.stage ≠ 43 → c.stage ≠ 44 → c.stage ≠ 45 → c.stage ≠ 46 →
       w'.events = w.events) ∧
-    (c.stage = 40 → mode ≠ 3 → mode ≠ 4 → w'.events = w.events) ∧
+    (c.stage = 40 → mode ≠ 3 → mode ≠ 4 → mode ≠ 5 → w'.events = w.events) ∧
     (c.stage ≠ 41 → CompletesOnlyWith (.val 7) w w') ∧
     (c.stage = 41 → CompletesOnlyWith (.val 0) w w') := by
   unfold CompletesOnlyWith
@@ -378,7 +379,7 @@ theorem blockOn_stage40 (hs : c.stage = 40) :
       if World.slotMode mode then do
         let m ← w1.getMutex (w.futs.getD f {}).slotMutex
         (w1.setStage 45).branch (w.futs.getD f {}).slotMutex .opaque (block := m.lock.isSome) (wait := true)
-      else if mode == 3 || mode == 4 then pure (w1.complete (.val 7))
+      else if mode == 3 || mode == 4 || mode == 5 then pure (w1.complete (.val 7))
       else do
         let m ← w1.getMutex (w.futs.getD f {}).awMutex
         (w1.setStage 44).branch (w.futs.getD f {}).awMutex .opaque (block := m.lock.isSome) (wait := true)) := by
